@@ -40,6 +40,7 @@ bitflags! {
         const CINQ = 16;
         const SIX = 32;
         const UN_SIX = 63;// all previous OR'ed
+        const DIX_SEIZE = 64;// after "huitante"/"octante" ("quatre-vingt-dix" has no regional counterpart)
     }
 }
 
@@ -82,38 +83,38 @@ impl LangInterpreter for French {
                 to_block = Excludable::UN_SIX;
                 match b.peek(2) {
                     b"60" => b.fput(b"70"),
-                    b"80" => b.fput(b"90"),
+                    b"80" if !blocked.contains(Excludable::DIX_SEIZE) => b.fput(b"90"),
                     _ => b.put(b"10"),
                 }
             }
             "onze" | "onzième" => match b.peek(2) {
                 b"60" => b.fput(b"71"),
-                b"80" => b.fput(b"91"),
+                b"80" if !blocked.contains(Excludable::DIX_SEIZE) => b.fput(b"91"),
                 _ => b.put(b"11"),
             },
             "douze" | "douzième" => match b.peek(2) {
                 b"60" => b.fput(b"72"),
-                b"80" => b.fput(b"92"),
+                b"80" if !blocked.contains(Excludable::DIX_SEIZE) => b.fput(b"92"),
                 _ => b.put(b"12"),
             },
             "treize" | "treizième" => match b.peek(2) {
                 b"60" => b.fput(b"73"),
-                b"80" => b.fput(b"93"),
+                b"80" if !blocked.contains(Excludable::DIX_SEIZE) => b.fput(b"93"),
                 _ => b.put(b"13"),
             },
             "quatorze" | "quatorzième" => match b.peek(2) {
                 b"60" => b.fput(b"74"),
-                b"80" => b.fput(b"94"),
+                b"80" if !blocked.contains(Excludable::DIX_SEIZE) => b.fput(b"94"),
                 _ => b.put(b"14"),
             },
             "quinze" | "quinzième" => match b.peek(2) {
                 b"60" => b.fput(b"75"),
-                b"80" => b.fput(b"95"),
+                b"80" if !blocked.contains(Excludable::DIX_SEIZE) => b.fput(b"95"),
                 _ => b.put(b"15"),
             },
             "seize" | "seizième" => match b.peek(2) {
                 b"60" => b.fput(b"76"),
-                b"80" => b.fput(b"96"),
+                b"80" if !blocked.contains(Excludable::DIX_SEIZE) => b.fput(b"96"),
                 _ => b.put(b"16"),
             },
             "vingt" | "vingtième" => match b.peek(2) {
@@ -144,11 +145,11 @@ impl LangInterpreter for French {
                 b.put(b"70")
             }
             "huitante" | "huitantième" | "huitantiène" => {
-                to_block = Excludable::UN;
+                to_block = Excludable::UN | Excludable::DIX_SEIZE;
                 b.put(b"80")
             }
             "octante" | "octantième" => {
-                to_block = Excludable::UN;
+                to_block = Excludable::UN | Excludable::DIX_SEIZE;
                 b.put(b"80")
             }
             "nonante" | "nonantième" => {
@@ -184,9 +185,14 @@ impl LangInterpreter for French {
                 b.marker = marker;
                 b.freeze();
             }
-        } else if matches!(status, Err(Error::Incomplete)) && blocked.contains(Excludable::DEUX) {
-            // "et" after "dix": the units stay excluded ("dix et un" is not "onze")
-            b.flags = blocked.bits()
+        } else if matches!(status, Err(Error::Incomplete)) {
+            // "et" after "dix": the units stay excluded ("dix et un" is not "onze");
+            // "et" after "huitante"/"octante": the teens stay excluded ("huitante et dix" is not "nonante")
+            b.flags = if blocked.contains(Excludable::DEUX) {
+                blocked.bits()
+            } else {
+                (blocked & Excludable::DIX_SEIZE).bits()
+            }
         } else {
             b.flags = 0
         }
